@@ -280,6 +280,23 @@ func c02Alphabet(c *vlib.Ctx) (cfgs []CfgLit, intentsFor func(oc int) []ref.Inte
 			}
 		}
 	}
+	// realistic configurations: long lists, unusual token characters, interior integers (a small extra product)
+	nBase := len(ochoices)
+	ochoices = append(ochoices,
+		c02OriginChoice{richOrigins, []string{"https://api-v2.example.co.uk", "https://deep.sub.example.co.uk", "https://xn--bcher-kva.example:49152", "https://xn--bcher-kva.example", "app+v1.0://host-1.internal:10000", "https://x.host-1.internal:65535", "https://example.co.uk:10443", "https://example.co.uk"}},
+		c02OriginChoice{append([]string{"*"}, richOrigins[:3]...), []string{"https://api-v2.example.co.uk", "https://whatever.example:12345"}})
+	for oc := nBase; oc < len(ochoices); oc++ {
+		for _, cred := range []bool{false, true} {
+			for pna := 0; pna < 3; pna++ {
+				for _, m := range [][]string{richMethods, {"*"}, {"m-search", "Report"}} {
+					for _, h := range [][]string{richReqHdrs, {"*", "Authorization"}, append([]string{"Authorization"}, richReqHdrs[2:5]...)} {
+						cfgs = append(cfgs, CfgLit{Origins: ochoices[oc].patterns, Credentialed: cred, Methods: m, RequestHeaders: h, MaxAge: 600, Status: 201, PNA: pna == 1, PNANoCORS: pna == 2, TolPSL: true, TolInsecure: true})
+						ocOf = append(ocOf, oc)
+					}
+				}
+			}
+		}
+	}
 	methods := []string{"GET", "POST", "PUT", "put", "PATCH", "patch", "DELETE", "QUERY", "OPTIONS", "options"}
 	names := []string{"authorization", "x-foo", "X-Bar", "x-other"}
 	if !c.Thorough() {
@@ -288,6 +305,11 @@ func c02Alphabet(c *vlib.Ctx) (cfgs []CfgLit, intentsFor func(oc int) []ref.Inte
 	cache := map[int][]ref.Intent{}
 	for oc, o := range ochoices {
 		var ins []ref.Intent
+		methods, names := methods, names
+		if oc >= nBase {
+			methods = []string{"GET", "M-SEARCH", "m-search", "REPORT", "Report", "a*b!c", "delete", "PURGE"}
+			names = []string{"authorization", "x-api_key.v2", "X-Trace~Id", "x-b3-traceid", "x-unlisted-1"}
+		}
 		for _, org := range o.origins {
 			for _, m := range methods {
 				for mask := 0; mask < 1<<len(names); mask++ {
